@@ -533,7 +533,6 @@ package priority
 //@   ensures [C15] every-configured-priority-is-listed: result3 == nil ==> (forall k :: in(gPset, k) ==> in(pset(result1, len(result1)), k))
 //@   ensures [C15] no-configured-priority-without-a-share: result3 == nil ==> (forall k :: in(gPset, k) ==> result2[k] >= 1)
 //@   ensures [C02 C07 C15] result3 == nil ==> !gDivErr
-//@   assume-arith append-len[3]
 //@   loop 0
 //@     invariant [*] inputs != nil && strategic != nil && inputs != strategic && fresh(inputs) && fresh(strategic) && priorities.arr != 0 && fresh(priorities.arr)
 //@     invariant [*] forall k :: dom(inputs, k) <==> in($visited, k)
